@@ -110,6 +110,7 @@ static void out_meta(const char *k, const varintRLEMeta *m) {
 
 static int sample_index(size_t i, size_t count) {
     if (count <= 96) return 1;
+    if (count > 10000) return i < 3 || i + 3 >= count || i % (count / 6 + 1) == 0;
     if (i < 8 || i + 8 >= count) return 1;
     return i % (count / 16 + 1) == 0;
 }
